@@ -284,6 +284,8 @@ func (e *Exec) fmtValue(fr *frame, verb byte, flags string, a value, out *[]piec
 			}
 		}
 		*lit += "]"
+	case rtype:
+		*lit += x.t.String()
 	default:
 		panic(abortPath{why: fmt.Sprintf("fmt of %T", a), kind: "unsupported"})
 	}
